@@ -3,7 +3,7 @@ from collections import OrderedDict
 
 from vlib.api import *
 from vlib import pelbuild as pb
-from vlib.stubs import FakeJson, FakeImporter, SymDict, patched
+from vlib.stubs import FakeJson, FakeImporter, SymDict, patched, World, Namespace, ARG_DEFAULTS, run_main
 from pel import hexdump as hd
 from pel.datastream import DataStream
 from pel.peltool import peltool, user_data, ext_user_data, parse_user_data, src as srcmod, default as defmod
@@ -25,7 +25,7 @@ HARNESSES = [
     {"fn": "h_m2c00", "cases": ["route", "empty"], "timeout": {"quick": 90, "thorough": 300}},
     {"fn": "h_contain", "cases": ["ud:%d" % b for b in (2, 3, 4, 5, 6, 7)] + ["src:%d" % b for b in (2, 3, 4, 5, 6, 8)] + ["callout:%d" % b for b in (2, 4, 6)],
      "quick_cases": ["ud:4", "ud:6", "ud:7", "src:2", "src:4", "callout:4"], "timeout": {"quick": 120, "thorough": 400}},
-    {"fn": "h_disabled", "cases": [""], "timeout": {"quick": 90, "thorough": 300}},
+    {"fn": "h_disabled", "cases": ["", "main:f", "main:a", "main:i", "main:l", "main:j"], "timeout": {"quick": 90, "thorough": 300}},
 ]
 BOUNDS = {"names": "creator letter (either case) and 16-bit component id symbolic", "src arguments": "each hex word symbolic in turn "
           "(32 bit), word count 1..9, creator letter, two reference-code characters",
@@ -363,6 +363,27 @@ def h_disabled() -> bool:
     co = pb.callouts_subsection([pb.callout(loc=b"Ufcs-P1\0", fru=pb.fru_identity(0x42, pn=b"BMC0001"))])
     pel = pb.PEL(pb.SRC(flags=1, callouts=co), pb.UD(b"\x01\x02\x03", comp=0x0777), pb.ED(b"\x06\x07", creator=cr, comp=0x0888),
                  pb.UD(b"\x01", comp=0xE500), ph=dict(creator=cr))
+    if CASE.startswith("main"):
+        # the real command line path: -P together with every way of naming what to decode
+        mode = CASE.split(":")[1]
+        pel = pb.PEL(pb.SRC(flags=1, callouts=co), pb.UD(b"\x01\x02\x03", comp=0x0777), pb.ED(b"\x06\x07", creator=cr, comp=0x0888),
+                     pb.UD(b"\x01", comp=0xE500), ph=dict(creator=cr, eid=0x50000001), uh=dict(sev=0x40, flags=0x8000))
+        w = World(files=[("a_50000001", pel)], dirs=["/out"])
+        opts = {"f": dict(file="/pels/a_50000001"), "a": dict(path="/pels", all=True), "i": dict(path="/pels", pelID="0x50000001"),
+                "l": dict(path="/pels", list=True), "j": dict(path="/pels", json=True, output_dir="/out")}[mode]
+        ns = Namespace(**dict(ARG_DEFAULTS, skip_plugins=True, every_pel=True, **opts))
+        try:
+            with e:
+                status = run_main(peltool, w, ns, fj=e.fj)
+        except Exception as ex:
+            return verdict(False, obs={"exception": repr(ex)})
+        docs = [o.obj for o in w.stdout() if hasattr(o, "obj")] + [ev[2].obj for ev in w.events if ev[0] == "write" and hasattr(ev[2], "obj")]
+        conds = [status in (0, None), e.imp.requested == [], e.imp.calls == [], len(docs) == 1]
+        if len(docs) == 1 and mode != "l":
+            doc = docs[0]
+            conds += ["SRC Details" not in doc["Primary SRC"], hd.parse(doc["User Data 0"]["Data"]) == b"\x01\x02\x03",
+                      hd.parse(doc["Extended User Data"]["Data"]) == b"\x06\x07"]
+        return verdict(sym_all(conds), obs={"requested": e.imp.requested, "status": status})
     try:
         with e:
             eid, tok = peltool.parsePEL(DataStream(pel, byte_order="big", is_signed=False), cfg, False)
